@@ -194,8 +194,13 @@ def cmd_run_at(name, rev, tier='quick'):
   m['runs'].append({'verif_commit': sh(['git', '-C', HERE, 'rev-parse',
                                         '--short', 'HEAD']).stdout.strip(),
                     'repo_rev': rev, 'results': out,
+                    # (on an old tree the unpatched run may itself violate
+                    # - defects repaired since; then more violating cases
+                    # with the patch than without count as well)
                     'caught': any(v['exit'] == 1 and
-                                  v['monitors_only_with_patch']
+                                  (v['monitors_only_with_patch'] or
+                                   v['violating_cases'] >
+                                   v['without_patch_at_rev']['violating_cases'])
                                   for v in out.values())})
   save(name, m)
 
